@@ -9,7 +9,8 @@ path in the vocabulary of `NixModel/Pure/CalibPrim.lean`:
   applyPolynomialBody   util.apply_polynomial           (Stmt: subOrigin, `if`, polyval) with its parameters bound to
                                                          the roles of the arguments of the call in _read_data
   viewReadBody          DataView._read_data             (List VStmt)
-  coeffSetterBody / originSetterBody                    the two calibration setters (SStmt), with the HDF5 names
+  coeffSetterBody / originSetterBody                    the two calibration setters (SStmt: `if`, delItem, checkFlat,
+                                                         writeData, checkNumber, setAttr, stampIfAuto), with the HDF5 names
   coeffGetterName / originGetterName                    the names the getters read
   getitemReads / arrayReads / readDirectReads / iterReads    DataSet.__getitem__ / __array__ / read_direct / __iter__
                                                          are a plain `self._read_data(...)` (dispatching on the class)
@@ -428,6 +429,25 @@ def _is_stamp_if(st, me):
             and _self_attr(b.value.func, me, "force_updated_at"))
 
 
+def _is_flat_check(st, arg):
+    """if np.ndim(<arg>) != 1: raise ValueError(...)"""
+    if not (isinstance(st, ast.If) and not st.orelse and len(st.body) == 1 and isinstance(st.body[0], ast.Raise)):
+        return False
+    t = st.test
+    if not (isinstance(t, ast.Compare) and len(t.ops) == 1 and isinstance(t.ops[0], ast.NotEq)
+            and isinstance(t.comparators[0], ast.Constant) and t.comparators[0].value == 1
+            and not isinstance(t.comparators[0].value, bool)):
+        return False
+    c = t.left
+    if not (isinstance(c, ast.Call) and _dotted(c.func) == "np.ndim" and len(c.args) == 1 and not c.keywords
+            and _is_name(c.args[0], arg)):
+        return False
+    exc = st.body[0].exc
+    if isinstance(exc, ast.Call):
+        exc = exc.func
+    return _is_name(exc, "ValueError") and st.body[0].cause is None
+
+
 def getters_setters(repo):
     rel = "nixio/data_array.py"
     cls = _class(_parse(repo, rel), "DataArray", rel)
@@ -490,6 +510,9 @@ def getters_setters(repo):
         for st in stmts:
             if _is_stamp_if(st, me):
                 out.append(".stampIfAuto")
+                continue
+            if _is_flat_check(st, arg):
+                out.append(".checkFlat")
                 continue
             if isinstance(st, ast.If):
                 out.append("(.ite %s %s %s)" % (scond(st.test), sblock(st.body, env), sblock(st.orelse, env)))
